@@ -4,7 +4,10 @@
   PROVED here (hypothesis: the side invariants `L1.Side s` of the pre-state):
     `lev1_step_quiet` : a micro-step whose top frame is neither a `push`/`pop` frame nor a thread creation
        (`mSpawn`/`runSpStart`) does not increase `lev1` and strictly decreases it when it is a work event.
-  OPEN: the `push`/`pop` frames (`L1.l1Ring`, Fair2L1C.lean, in progress) and the two thread creations.
+    `lev1_step_ring`  : the `push`/`pop` frames (from `L1.l1Ring`, Fair2L1C.lean).
+  The two thread creations (`mSpawn`, `runSpStart`) are `lev1_step_mSpawn` / `lev1_step_runSpStart` (Fair2L1D.lean); the three are
+  composed in `lev1_step_all` (Fair2L1.lean).
+  OPEN: nothing in this file.
 -/
 import Nstd.Future.Fair2L1B
 import Nstd.Future.Fair2L1C
